@@ -613,8 +613,9 @@ class Union(Structure, metaclass=UnionMetaType):
 
     def _update(self) -> None:
         result, sizes = self.__class__._read_fields(io.BytesIO(self._buf))
-        if (stream := self.__dict__.get("_stream")) is not None:
-            _rebind_pointers(result.values(), stream)
+        # The members are parsed from a copy of the union's bytes: their pointers point into the stream the union was read
+        # from, and nowhere if the union was built from values
+        _rebind_pointers(result.values(), self.__dict__.get("_stream"))
         self.__dict__.update(result)
         object.__setattr__(self, "_values", result)
         object.__setattr__(self, "_sizes", sizes)
